@@ -597,7 +597,7 @@ def run(ctx):
     phases["compile_and_translate_s"] = round(time.time() - t0, 1)
     t0 = time.time()
     exprs = [c.expr for c in good] + lv_exprs
-    res = vlib.coq_eval_lines("c14", IMPORTS, "", exprs, shard=max(10, -(-len(exprs) // 12)), big_stack=False)
+    res = vlib.coq_eval_lines("c14", IMPORTS, "", exprs, shard=min(24, max(10, -(-len(exprs) // 12))), big_stack=False)
     phases["kernel_evaluation_s"] = round(time.time() - t0, 1)
     judge_names(res[len(good):])
     res = res[:len(good)]
